@@ -138,8 +138,6 @@ def apply_model(t, op):
             if op[1] < 0:
                 raise Reject("negative step on a batch axis")
             d = t.data[:, ::op[1]]
-            if d.size == 0:
-                raise Reject("empty")
             return Table(t.space, np.ascontiguousarray(d)), None
         sel = [n for n, _ in t.space][::op[1]]
         cols = []
